@@ -75,7 +75,7 @@ package ingress
 
 /*@ func types/ingress.ServicesFilter
   props C19 C17 C09
-  theory ingressfilters
+  theory ingressfilters filtereq nspartials
   requires [ingresses-valid] (forall ((j Int)) (=> (and (<= 0 j) (< j (slen {ingresses})))
         (and (not (= (select (sarr {ingresses}) j) vnil)) (not (= (obj-ns (select (sarr {ingresses}) j)) |str!|)))))
   loop 1 inv [range] (and (<= 0 (+ {rangeindex} 1)) (<= (+ {rangeindex} 1) (slen {ingresses})))
@@ -83,8 +83,33 @@ package ingress
         (exists ((j Int)) (and (<= 0 j) (< j (+ {rangeindex} 1)) (idOK (select (sarr {ingresses}) j) (select (sarr {ids}) q))))))
   loop 1 inv [every-backend-of-every-ingress-seen-has-an-id] (forall ((j Int) (n Str)) (=> (and (<= 0 j) (< j (+ {rangeindex} 1)) (isBackend (select (sarr {ingresses}) j) n))
         (exists ((q Int)) (and (<= 0 q) (< q (slen {ids})) (= (select (sarr {ids}) q) (|mk!nsname.NSName| (obj-ns (select (sarr {ingresses}) j)) n))))))
+  loop 1 inv [every-id-has-both-fields] (forall ((q Int)) (=> (and (<= 0 q) (< q (slen {ids}))) (idFull (select (sarr {ids}) q))))
+  at call(NSName).after apply NSName-keeps-no-partial-entry-when-every-id-is-full (ids {ids}) (base {zero:[]nsname.NSName}) (n (slen {ids}))
   ensures [is-nsname] (and (not (= result vnil)) (= (dyntype result) |ty!filter.nsNameFilter|))
+  ensures [representation-is-the-set-of-backend-ids @C17] (let ((x (|unbox!filter.nsNameFilter| result)))
+        (and (= (slen (|filter.nsNameFilter.partials| x)) 0)
+             (forall ((k NSN)) (= (select (|fdom!S!nsname.NSName!Bool| (|filter.nsNameFilter.fullset| x)) k)
+                (exists ((j Int)) (and (<= 0 j) (< j (slen {ingresses})) (idOK (select (sarr {ingresses}) j) k)))))
+             (forall ((k NSN)) (=> (select (|fdom!S!nsname.NSName!Bool| (|filter.nsNameFilter.fullset| x)) k)
+                (select (|fval!S!nsname.NSName!Bool| (|filter.nsNameFilter.fullset| x)) k)))))
   ensures [exactly-the-services-named-by-an-ingress-of-the-same-namespace] (forall ((o V)) (= (accept result o)
         (exists ((j Int)) (and (<= 0 j) (< j (slen {ingresses})) (= (obj-ns o) (obj-ns (select (sarr {ingresses}) j)))
                                (isBackend (select (sarr {ingresses}) j) (obj-name o))))))
+@*/
+
+/*@ lemma C17-order-independent-ingress-ServicesFilter
+  props C17
+  theory ingressfilters filtereq nspartials
+  note ServicesFilter compares equal whatever the order (and repetition) of its ingresses: all ids have both fields, so they are kept in a map and no ordered list
+  var xs : (Slice V)
+  var ys : (Slice V)
+  assume (and (>= (slen xs) 0) (>= (slen ys) 0))
+  assume [same-ingresses-in-any-order] (and
+      (forall ((p Int)) (=> (and (<= 0 p) (< p (slen xs))) (exists ((q Int)) (and (<= 0 q) (< q (slen ys)) (= (select (sarr ys) q) (select (sarr xs) p))))))
+      (forall ((p Int)) (=> (and (<= 0 p) (< p (slen ys))) (exists ((q Int)) (and (<= 0 q) (< q (slen xs)) (= (select (sarr xs) q) (select (sarr ys) p)))))))
+  call r1 := types/ingress.ServicesFilter xs
+  call r2 := types/ingress.ServicesFilter ys
+  call eq := filter.FiltersEqual r1 r2
+  prove [built-the-same-way] (bs r1 r2)
+  prove [compare-equal] eq
 @*/
